@@ -2395,6 +2395,8 @@ func (s *Server) serveConnCounted(c net.Conn, countConcurrency bool) error {
 	)
 	for {
 		connRequestNum++
+		// The decision not to call the handler is made per request.
+		continueReadingRequest = true
 
 		if connRequestNum == 1 {
 			// Apply ReadTimeout to the first request byte.
